@@ -356,7 +356,10 @@ def check_message(ctx, case, toks, b, tag, max_depth, budget):
     if tag == 'generated' and rng.random() < 0.5:
         from pybufrkit.decoder import Decoder
         try:
-            mc = Decoder(compiled_template_cache_max=2).process(b)
+            # (bounded: outside the premise of C08 a compiled program may read its replication factors out of step and
+            # loop over data values; that is C08's subject, here such a message is only counted)
+            with lib.time_limit(10):
+                mc = Decoder(compiled_template_cache_max=2).process(b)
             tdc = mc.template_data.value
             tdc.decoded_values_all_subsets = [[C09.wrap(v, k) for k, v in enumerate(vs)] for vs in tdc.decoded_values_all_subsets]
             for e, _, _ in exprs[:8]:
